@@ -37,7 +37,7 @@ SURVIVORS = {
  # ---- C09 ---------------------------------------------------------------------------
  'c09_div_signed_x': ('functions.py', "    signed = x.signed or y.signed\n    n_int = x.n_int + y.n_frac + signed\n    n_frac = x.n_frac + y.n_int", "    signed = x.signed\n    n_int = x.n_int + y.n_frac + signed\n    n_frac = x.n_frac + y.n_int"),
  # ---- C10 ---------------------------------------------------------------------------
- 'c10_like_cfg': ('objects.py', "            return  x.copy().set_val(new_raw_val, raw=True)", "            y = x.copy(); y.config = self.config; return y.set_val(new_raw_val, raw=True)"),
+ 'c10_like_cfg': ('objects.py', "            return  x.deepcopy().set_val(new_raw_val, raw=True)", "            y = x.deepcopy(); y.config = self.config; return y.set_val(new_raw_val, raw=True)"),
  # ---- C11 ---------------------------------------------------------------------------
  'c11_from_bin_raw': ('objects.py', "        self.set_val(utils.add_binary_prefix(val), raw=raw)", "        self.set_val(utils.add_binary_prefix(val))"),
  'c11_bin_arr_dot': ('objects.py', "                rval = [utils.binary_repr(utils.int_array(val), n_word=self.n_word, n_frac=n_frac_dot, prefix=prefix) for val in self.val]", "                rval = [utils.binary_repr(utils.int_array(val), n_word=self.n_word, n_frac=None, prefix=prefix) for val in self.val]"),
